@@ -65,10 +65,6 @@ theorem count_le (p : Ty → Bool) (ts : List Ty) : count p ts ≤ ts.length := 
 
 /-! ### the conversion loop -/
 
-/-- the slot the loop computes for one input type; outer `none` = give up -/
-def slotOf (E : Env) (uns : Bool) (retTy ty : Ty) : Option (Option UConv) :=
-  if ty.equals retTy then some none else (getConv E ty retTy uns).map fun p => some (.plan p)
-
 theorem convLoop_get {E : Env} {uns : Bool} {retTy : Ty} :
     ∀ {ts : List Ty} {cs : Convs}, convLoop E uns retTy ts = some cs →
       cs.length = ts.length ∧ ∀ (i : Nat) ty, ts[i]? = some ty → slotOf E uns retTy ty = cs[i]?
